@@ -167,6 +167,86 @@ def synth_mol(specs):
     return m
 
 
+def synth_mol_anchored(specs):
+    """like synth_mol, but every synthetic atom is bonded (single, not in a ring) to a plain carbon anchor added before it:
+    with a query  A~X  the synthetic atom is tested by the neighbour loop of the .pyx (not by the first-atom loop)"""
+    from chython import MoleculeContainer
+    from chython.containers.bonds import Bond
+    from chython.periodictable import Element
+    m = MoleculeContainer()
+    for s in specs:
+        s = {**DEFAULT_ATOM, **s}
+        c = m.add_atom(Element.from_atomic_number(6)(), _skip_calculation=True)
+        n = m.add_atom(Element.from_atomic_number(s['num'])(s['iso']), _skip_calculation=True)
+        m.add_bond(c, n, Bond(1), _skip_calculation=True)
+        m._bonds[c][n]._in_ring = False
+        for k, (chg, rad, nb, hyb, h, het, rings) in ((c, (0, False, 1, 1, 3, 0, ())),
+                                                     (n, (s['chg'], s['rad'], s['nb'], s['hyb'], s['h'], s['het'], s['rings']))):
+            a = m._atoms[k]
+            a._charge, a._is_radical, a._neighbors, a._hybridization = chg, rad, nb, hyb
+            a._implicit_hydrogens, a._explicit_hydrogens, a._heteroatoms = h, 0, het
+            a._ring_sizes, a._in_ring = set(rings), bool(rings)
+    m._changed = None
+    m.flush_cache()
+    return m
+
+
+def synth_query_next(spec):
+    """A ~ X : an unconstrained neutral AnyElement first, then the synthetic query atom behind an any-order bond"""
+    from chython.containers import QueryContainer
+    from chython.containers.bonds import QueryBond
+    from chython.periodictable import AnyElement
+    q = QueryContainer('synthetic-next')
+    q.add_atom(AnyElement())
+    q.add_atom(synth_qatom(spec))
+    q.add_bond(1, 2, QueryBond((1, 2, 3, 4, 8)))
+    return q
+
+
+def synth_bond_mol():
+    """ten two-atom fragments and ten triangles, one per (bond order, ring mark); labels set directly"""
+    from chython import MoleculeContainer
+    from chython.containers.bonds import Bond
+    m = MoleculeContainer()
+    kinds = [(o, r) for o in (1, 2, 3, 4, 8) for r in (False, True)]
+    for o, r in kinds:
+        a, c = m.add_atom('C', _skip_calculation=True), m.add_atom('N', _skip_calculation=True)
+        m.add_bond(a, c, Bond(o), _skip_calculation=True)
+        m._bonds[a][c]._in_ring = r
+    for o, r in kinds:
+        t = [m.add_atom('O', _skip_calculation=True) for _ in range(3)]
+        for x, y in ((0, 1), (1, 2), (2, 0)):
+            m.add_bond(t[x], t[y], Bond(o), _skip_calculation=True)
+            m._bonds[t[x]][t[y]]._in_ring = r
+    for n, a in m._atoms.items():
+        a._neighbors, a._hybridization, a._implicit_hydrogens, a._explicit_hydrogens = len(m._bonds[n]), 1, 0, 0
+        a._heteroatoms, a._ring_sizes, a._in_ring = 0, set(), False
+    m._changed = None
+    m.flush_cache()
+    return m
+
+
+def synth_bond_queries():
+    """every QueryBond (31 order sets x in_ring None/True/False) as the bond of a second atom and as a ring closure"""
+    from chython.containers import QueryContainer
+    from chython.containers.bonds import QueryBond
+    out = []
+    for r in range(1, 6):
+        for orders in itertools.combinations((1, 2, 3, 4, 8), r):
+            for ring in (None, True, False):
+                q = QueryContainer('bond')
+                q.add_atom('C'), q.add_atom('N')
+                q.add_bond(1, 2, QueryBond(orders, in_ring=ring))
+                out.append((f'C{list(orders)}{ring}N', q))
+                q = QueryContainer('closure')
+                q.add_atom('O'), q.add_atom('O'), q.add_atom('O')
+                q.add_bond(1, 2, QueryBond((1, 2, 3, 4, 8)))
+                q.add_bond(2, 3, QueryBond((1, 2, 3, 4, 8)))
+                q.add_bond(1, 3, QueryBond(orders, in_ring=ring))
+                out.append((f'O1~O~O{list(orders)}{ring}1', q))
+    return out
+
+
 def synth_qatom(spec):
     """spec: dict(kind='elem'|'any'|'list'|'metal', num=, nums=, iso=, chg=, rad=, nb=, hyb=, h=, het=, rings=)"""
     from chython.periodictable import AnyElement, AnyMetal, ListElement, QueryElement
@@ -361,7 +441,7 @@ SEED_SMILES = ['C', 'CC', 'CCO', 'C=C', 'C#C', 'C#N', 'c1ccccc1', 'C1CC1', 'C1=C
                'OC(=O)c1ccccc1N', 'CC(C)(C)C', 'C[N+](C)(C)C', '[O-][N+](=O)c1ccccc1', 'CS(=O)(=O)N', 'ClC(Cl)(Cl)Cl', '[13CH4]',
                '[2H]O[2H]', '[CH3]', 'C[Fe](C)(C)(C)(C)C', '[Na+].[Cl-]', 'CC.OO.N', 'C1CCCCC1.C1CCCCC1', 'c1ccncc1', 'C1CC12CC2',
                'C12C3C4C1C5C2C3C45', 'N[C@@H](C)C(=O)O', 'F/C=C/Cl', 'O=C1NC=CC(=O)N1', 'CC(=O)Oc1ccccc1C(O)=O', 'C1CCCCCCCCCCC1',
-               '[La]', '[U](F)(F)(F)(F)(F)F', '[Lv]', 'C[Pt](N)(N)Cl', 'C~C'.replace('~', '-'), 'B1OCCO1', 'C1=CC=CC=C1']
+               '[La]', '[U](F)(F)(F)(F)(F)F', '[Lv]', 'F[Th](F)(F)F', 'C[Hg]C', 'Cl[Au](Cl)Cl', 'C[Pb](C)(C)C', 'O=[Os](=O)(=O)=O', 'C[Pt](N)(N)Cl', 'C~C'.replace('~', '-'), 'B1OCCO1', 'C1=CC=CC=C1']
 
 SMARTS_LIB = ['C', 'N', 'O', '[#6]', '[C,N]', '[C,N,O;D2]', 'A', '[A]', '[M]', '[M;D6]', '[M;z1]', 'CC', 'C-C', 'C=C', 'C#C', 'C:C', 'C~C',
               'C-,=C', 'C=,:C', 'C!-C', 'C-;@C', 'C-;!@C', 'C~;@C', 'C!:;@C', '[C;D1]', '[C;D2,D3]', '[C;D4]', '[C;h0]', '[C;h1,h2]',
@@ -372,7 +452,7 @@ SMARTS_LIB = ['C', 'N', 'O', '[#6]', '[C,N]', '[C,N,O;D2]', 'A', '[A]', '[M]', '
               '[Na+].[Cl-]', 'C1CC1.C', 'CCO', 'CCCC', 'C-C-C-C-C', 'C(C)C(C)C', '[O,N;h1,h2]', '[C;r6;a]-;!@[C;h1,h2,h3]',
               'C12CC1C2', 'C1CC2CC1CC2', 'C1CC12CC2', 'C[Fe]', 'C[M]', '[M]~[A]', 'F[U]', 'S(=O)(=O)', '[S;D4](=O)(=O)', 'Cl', '[F,Cl,Br,I]',
               'C[N+](C)(C)C', '[A;D1]~[A;D4]', '[C;D1]~[C]~[C;D1]', 'C |^1:0|', '[C;h3] |^1:0|', 'c1ccncc1', 'C:N', 'C:,=N', '[#7;r6]',
-              '[La]', '[Lv]', '[#57,#58]', 'B1OCCO1', 'O=C1NC=CC(=O)N1', '[C;r12]', 'C1CCCCCCCCCCC1']
+              '[La]', '[Lv]', '[#57,#58]', 'F[Th]', 'C[Hg]', 'Cl[Au]', 'C[Pb]', 'O=[Os]', 'Cl[Pt]', 'F[Th,U]', 'C[Sn,Pb]', '[Hg,Pb]C', 'C[Hg]C', 'B1OCCO1', 'O=C1NC=CC(=O)N1', '[C;r12]', 'C1CCCCCCCCCCC1']
 
 
 def molecules(rng, tier):
@@ -384,7 +464,7 @@ def molecules(rng, tier):
     m.add_atom('C'), m.add_atom('C'), m.add_atom('O')
     m.add_bond(1, 2, 8), m.add_bond(2, 3, 1)
     out.append(('special-bond', 'C~CO (order 8)', m))
-    pool = corpus.sample(corpus.lipo(), 40 if tier == 'quick' else 600, rng.random(), 'c09')
+    pool = corpus.sample(corpus.lipo(), 30 if tier == 'quick' else 600, rng.random(), 'c09')
     for s in pool:
         try:
             m = smiles(s)
@@ -563,16 +643,66 @@ def corr_atoms(ck, rng, mod, lay):
                                       'the two real paths (transpiled .pyx first-atom test vs QueryXx.__eq__)',
                                       replay_py=REPLAY_PRE + f'q = synth_query([{qs!r}]); m = synth_mol([{aspecs[i + j]!r}]); '
                                                              f'print(list(q.get_mapping(m)), list(q.get_mapping(m, _cython=False)))')
+    # ---- the same grids through the NEIGHBOUR loop of the .pyx: query A~X on anchored synthetic atoms (no random pairs)
+    by_query_next = {}
+    amols = []
+    for i in range(0, len(aspecs), 120):
+        am = synth_mol_anchored(aspecs[i:i + 120])
+        amols.append((i, am, am._cython_compiled_structure))
+    for qi, (qs, q, qbuf) in enumerate(qatoms):
+        if qbuf is None:
+            continue
+        qa = q._atoms[1]
+        qn = synth_query_next(qs)
+        try:
+            qnbuf = qn._cython_compiled_query[0]
+        except Exception as e:
+            ck.unchecked('encoder _cython_compiled_query raised on a two-atom synthetic query', f'{type(e).__name__}: {e}', [repr(qs)])
+            continue
+        qfields = {k for k in qs if k != 'kind' and qs[k] is not None}
+        for i, am, ambuf in amols:
+            nums = list(am._atoms)
+            want = [j for j in range(len(nums) // 2) if paired(qs, qfields, aspecs[i + j], field_of_a[i + j])]
+            if not want:
+                continue
+            scope = [0] * len(nums)
+            for j in want:
+                scope[2 * j] = scope[2 * j + 1] = 1
+            got, err = run_pyx(mod, qnbuf, ambuf, scope)
+            if err is not None:
+                ck.unchecked('transpiled get_mapping raised on a two-atom query', err, [repr(qs)])
+                continue
+            hit = {d[2] for d in got}
+            for j in want:
+                a = am._atoms[nums[2 * j + 1]]
+                oref = bool(qa == a)
+                omask = nums[2 * j + 1] in hit
+                by_query_next.setdefault(qi, []).append((i + j, oref, omask))
+                ck.case(('pair-next', qi, i + j), nontrivial=oref or omask)
+                ck.count('atom pair (neighbour loop): ' + ('match' if oref else 'no match'))
+                if oref != omask and in_range_atom(aspecs[i + j]) and in_range_query(qs, mdl) and \
+                        not (qs.get('kind') == 'metal' and aspecs[i + j].get('num', 6) == 86):
+                    ck.counterexample(f'atom-mismatch-next:{sorted(qs.items())!r}:{sorted(aspecs[i + j].items())!r}',
+                                      'neighbour-loop mask test and __eq__ disagree on a query atom / molecule atom pair inside the representable range',
+                                      {'query_atom': qs, 'atom': aspecs[i + j]}, {'mask': omask}, {'__eq__': oref},
+                                      'the two real paths (transpiled .pyx neighbour test vs QueryXx.__eq__)',
+                                      replay_py=REPLAY_PRE + f'q = synth_query_next({qs!r}); m = synth_mol_anchored([{aspecs[i + j]!r}]); '
+                                                             f'print(list(q.get_mapping(m)), list(q.get_mapping(m, _cython=False)))')
     # one Coq case per query atom: all its pairs (a list literal with thousands of `n%nat` indices elaborates quadratically)
     for qi, l in by_query.items():
-        pair_cases.append(f'prs {qi} {lst([tup(zraw(j), b(r), b(k)) for j, r, k in l])}')
+        pair_cases.append(f'prs {qi} {lst([tup(zraw(j), b(r), b(k)) for j, r, k in l])} {lst([tup(zraw(j), b(r), b(k)) for j, r, k in by_query_next.get(qi, [])])}')
         pair_meta.append(qi)
     extra = EXTRA + 'Definition QS : list qatom := ' + lst(qterms, per_line=1) + '.\n' + \
         'Definition AS : list latom := ' + lst(aterms, per_line=1) + '.\n' + \
         'Definition pr (i j : Z) (oref omask : bool) : bool :=\n' \
         '  let q := znth QS i (QMetal [] []) in let a := znth AS j (mkLA 0 None 0 false 0 0 None 0 []) in\n' \
         '  Bool.eqb (match_atom q a) oref && Bool.eqb (mask_match_first (enc_qatom q None) (enc_atom a)) omask.\n' \
-        'Definition prs (i : Z) (l : list (Z * bool * bool)) : bool := forallb (fun x => pr i (fst (fst x)) (snd (fst x)) (snd x)) l.\n'
+        'Definition ANYB : qbond := mkQB [1; 2; 3; 4; 8] None.\n' \
+        'Definition pr2 (i j : Z) (oref omask : bool) : bool :=\n' \
+        '  let q := znth QS i (QMetal [] []) in let a := znth AS j (mkLA 0 None 0 false 0 0 None 0 []) in\n' \
+        '  Bool.eqb (match_atom q a) oref && Bool.eqb (mask_match_next (enc_qatom q (Some ANYB)) (enc_bond (mkLB 1 false) (w1 (enc_atom a))) (enc_atom a)) omask.\n' \
+        'Definition prs (i : Z) (l l2 : list (Z * bool * bool)) : bool :=\n' \
+        '  forallb (fun x => pr i (fst (fst x)) (snd (fst x)) (snd x)) l && forallb (fun x => pr2 i (fst (fst x)) (snd (fst x)) (snd x)) l2.\n'
     mol_cases = [(c, mt) for c, mt in zip(cases, meta) if mt[0] == 'enc_mol']
     q_cases = [(c, mt) for c, mt in zip(cases, meta) if mt[0] == 'enc_query']
     ok1a, f1a, log1a = coqcases.run_cases('c09_encm', 'PyBase', [c for c, _ in mol_cases], extra=EXTRA, shard=2)
@@ -591,13 +721,16 @@ def corr_atoms(ck, rng, mod, lay):
             for j, r, o in by_query[pair_meta[k]][:150]:
                 single.append(f'pr {pair_meta[k]} {j} {b(r)} {b(o)}')
                 smeta.append((pair_meta[k], j))
-        _, f3, _ = coqcases.run_cases('c09_pair1', 'PyBase', single, extra=extra, shard=450)
+            for j, r, o in by_query_next.get(pair_meta[k], [])[:150]:
+                single.append(f'pr2 {pair_meta[k]} {j} {b(r)} {b(o)}')
+                smeta.append((pair_meta[k], j))
+        _, f3, _ = coqcases.run_cases('c09_pair1', 'PyBase', single, extra=extra, shard=300)
         bad_pairs = [smeta[i] for i in f3]
     else:
         bad_pairs = []
     ck.oblige('correspondence: QueryXx.__eq__ == match_atom and first-atom mask test of the transpiled .pyx == mask_match_first',
               ok2 and not failing2, 'correspondence', log2 or str([(qatoms[q_][0], aspecs[a_]) for q_, a_ in bad_pairs[:5]]))
-    n_pairs = sum(len(v) for v in by_query.values())
+    n_pairs = sum(len(v) for v in by_query.values()) + sum(len(v) for v in by_query_next.values())
     ck.extra['correspondence_cases_atoms'] = len(cases) + n_pairs
     if pair_cases:
         ck.sample({'model_call': pair_cases[0][:300], 'query_atom': qterms[pair_meta[0]]})
@@ -670,7 +803,7 @@ def directed_atoms(ck, items, qspecs, aspecs, mdl):
     ck.extra['directed_atom_pairs'] = tried
 
 
-def component_runs(q, m, rng, mod):
+def component_runs(q, m, rng, mod, full_only=False):
     """every (component, scope) call the wrapper could make for this pair, at the level of the two inner functions"""
     comps, clo = q._compiled_query
     try:
@@ -680,10 +813,10 @@ def component_runs(q, m, rng, mod):
         return None, f'{type(e).__name__}: {e}'
     nums = list(m._atoms)
     scopes = [set(nums)]
-    if len(nums) > 1:
+    if len(nums) > 1 and not full_only:
         scopes.append(set(rng.sample(nums, max(1, len(nums) * 2 // 3))))
     cc = m.connected_components
-    if len(cc) > 1:
+    if len(cc) > 1 and not full_only:
         scopes.extend(set(c) for c in cc[:2])
     runs = []
     for ci, comp in enumerate(comps):
@@ -711,19 +844,24 @@ def corr_pairs(ck, rng, mod, lay):
     mismatches = []
     n_pairs = n_oracle = 0
     per_mol = 5 if ck.tier == 'quick' else 14
-    p_hit, p_empty = (.15, .015) if ck.tier == 'quick' else (1, .3)
+    p_hit, p_empty = (.12, .01) if ck.tier == 'quick' else (1, .3)
+    sb = synth_bond_mol()
+    mols.append(('synthetic-bonds', 'synthetic bond fragments', sb))
+    bond_queries = synth_bond_queries()
     for kind, text, m in mols:
         h_none = any(a.implicit_hydrogens is None for a in m._atoms.values())
         if h_none:
             ck.count('molecule with an atom whose implicit_hydrogens is None (raw aromatic heteroatom, valence error)')
         qs = [(s, q) for s, q in rng.sample(lib, min(per_mol, len(lib)))] if kind == 'corpus' else list(lib)
+        if kind == 'synthetic-bonds':
+            qs = bond_queries if ck.tier != 'quick' else bond_queries[::2] + bond_queries[1::4]
         if kind == 'corpus':
             for _ in range(3):
                 fq = fragment_query(m, rng)
                 qs.append(('fragment of ' + text, fq))
         rm = rmol_term(m)
         for qtext, q in qs:
-            res, err = component_runs(q, m, rng, mod)
+            res, err = component_runs(q, m, rng, mod, full_only=kind == 'synthetic-bonds')
             if res is None:
                 ck.unchecked('encoders raised on a library query / molecule', err, [qtext, text])
                 continue
@@ -754,7 +892,7 @@ def corr_pairs(ck, rng, mod, lay):
                     else:
                         mismatches.append((qtext, text, q, m, 'different sets of mappings from one component / scope call'))
                 n_oracle += 1
-                if rng.random() >= (p_hit if (slow or fast) else p_empty) and kind != 'corpus':
+                if rng.random() >= (p_hit if (slow or fast) else p_empty) and kind == 'seed':
                     continue
                 n_pairs += 1
                 cases.append(f'pair_ok {rq_term(comp, clo)} {rm} {lst(bits, lambda x: b(bool(x)))} {maps_term(fast, qnums)} {maps_term(slow, qnums)}')
